@@ -205,7 +205,7 @@ fn expand(files: &[File], mac: &Macro) -> Res<(String, Expr, Vec<TokenTree>)> {
 // following one arm
 
 /// the `Configuration` methods translated through their dispatch macro
-const DISPATCHED: &[&str] = &["get_rx_datarate", "get_rx2_frequency", "get_default_datarate", "has_fixed_channel_plan", "rx1_dr_offset_validate", "get_datarate", "check_tx_power"];
+const DISPATCHED: &[&str] = &["get_rx_datarate", "get_rx2_frequency", "get_default_datarate", "has_fixed_channel_plan", "rx1_dr_offset_validate", "get_datarate", "check_tx_power", "is_uplink_datarate"];
 /// translated per region by `Gen.RegionStatic` (statics.rs `HANDLER_METHODS`) under `<Region variant>.<method>`
 const STATIC_HANDLER: &[&str] = &["get_rx2_frequency", "rx1_dr_offset_validate", "has_fixed_channel_plan", "get_default_datarate"];
 
@@ -355,7 +355,8 @@ fn plan_method_term(files: &[File], names: &[String], reg: &Registry, w: &Wiring
         }
         return Ok((t, false));
     }
-    let tp = tparam.ok_or(format!("{}: the impl has no type parameter", what))?;
+    // (a default body of the trait has no plan type parameter: `P::..` shapes cannot occur in it)
+    let tp = tparam.unwrap_or_else(|| "<no type parameter>".to_string());
     let e = strip_paren(single_tail_expr(body).ok_or(format!("{}: body is not a single expression", what))?);
     let arg_of = |x: &Expr| -> Res<String> {
         let id = single_ident(x).ok_or(format!("{}: argument is not a parameter name", what))?;
@@ -403,7 +404,65 @@ fn plan_method_term(files: &[File], names: &[String], reg: &Registry, w: &Wiring
             }
         }
     }
+    // shape 3: a conjunction of `param CMP P::CONST` and `self.other_method(params…).is_some()`
+    if let Some(t) = bool_term(files, names, reg, w, e, &tp, &params, args, &what)? {
+        return Ok((t, false));
+    }
     Err(format!("{}: body `{}` has a shape the region dispatch does not translate", what, quote::ToTokens::to_token_stream(e)))
+}
+
+fn bool_term(files: &[File], names: &[String], reg: &Registry, w: &Wiring, e: &Expr, tp: &str, params: &[(String, Type)], args: &[String], what: &str) -> Res<Option<String>> {
+    let arg_of = |x: &Expr| -> Option<(String, String)> {
+        if matches!(x, Expr::Reference(_)) {
+            return None;
+        }
+        let id = single_ident(x)?;
+        let k = params.iter().position(|(n, _)| *n == id)?;
+        Some((args[k].clone(), type_name(&params[k].1)))
+    };
+    match strip_paren(e) {
+        Expr::Binary(b) if matches!(b.op, BinOp::And(_)) => {
+            let (Some(l), Some(r)) = (bool_term(files, names, reg, w, &b.left, tp, params, args, what)?, bool_term(files, names, reg, w, &b.right, tp, params, args, what)?) else { return Ok(None) };
+            Ok(Some(format!("({} && {})", l, r)))
+        }
+        Expr::Binary(b) => {
+            let op = match b.op {
+                BinOp::Le(_) => "≤",
+                BinOp::Lt(_) => "<",
+                BinOp::Ge(_) => "≥",
+                BinOp::Gt(_) => ">",
+                BinOp::Eq(_) => "=",
+                _ => return Ok(None),
+            };
+            let Some((l, lt)) = arg_of(&b.left) else { return Ok(None) };
+            let Expr::Path(p) = strip_paren(&b.right) else { return Ok(None) };
+            if p.path.segments.len() != 2 || p.path.segments[0].ident != tp || lt != "u8" {
+                return Ok(None);
+            }
+            if !w.args.is_empty() {
+                return Err(format!("{}: associated constant of a const-generic region type in a comparison", what));
+            }
+            // the region type's associated constant as `Gen.RegionStatic` regenerates it (a missing one fails the Lean build)
+            Ok(Some(format!("decide ({} {} Gen.RegionStatic.{}.{})", l, op, w.region_ty, p.path.segments[1].ident)))
+        }
+        Expr::MethodCall(m1) if m1.method == "is_some" && m1.args.is_empty() => {
+            let Expr::MethodCall(m2) = strip_paren(&m1.receiver) else { return Ok(None) };
+            if single_ident(&m2.receiver).as_deref() != Some("self") || matches!(&*m2.receiver, Expr::Reference(_)) {
+                return Ok(None);
+            }
+            let mut a2 = vec![];
+            for a in &m2.args {
+                let Some((t, _)) = arg_of(a) else { return Ok(None) };
+                a2.push(t);
+            }
+            let (t, fal) = plan_method_term(files, names, reg, w, &m2.method.to_string(), &a2)?;
+            if fal {
+                return Err(format!("{}: `self.{}` may panic inside a condition", what, m2.method));
+            }
+            Ok(Some(format!("({}).isSome", t)))
+        }
+        _ => Ok(None),
+    }
 }
 
 pub fn region_dispatch(files: &[File], names: &[String], reg: &mut Registry, out: &mut String) -> Res<()> {
@@ -530,6 +589,253 @@ pub fn region_dispatch(files: &[File], names: &[String], reg: &mut Registry, out
         writeln!(out).unwrap();
     }
     Ok(())
+}
+
+// ------------------------------------------------------------------------------------------------
+// `region_static_dispatch!`: `State::V(_) => path::PlanTy::m(args)` → inherent fn of the plan type → `R::m(args)` /
+// `RegionTy::m(args)` → the region type's trait impl, else the default body of `ChannelRegion`
+
+fn inherent_fn<'a>(files: &'a [File], ty: &str, name: &str) -> Res<(&'a ImplItemFn, Option<String>)> {
+    let mut hit = None;
+    for it in flat_items(files) {
+        if let Item::Impl(im) = it {
+            if im.trait_.is_none() && type_name(&im.self_ty) == ty {
+                let tparam = im.generics.params.iter().find_map(|g| match g {
+                    GenericParam::Type(t) => Some(t.ident.to_string()),
+                    _ => None,
+                });
+                for ii in &im.items {
+                    if let ImplItem::Fn(f) = ii {
+                        if f.sig.ident == name {
+                            if hit.is_some() {
+                                return Err(format!("{}::{} is defined twice", ty, name));
+                            }
+                            hit = Some((f, tparam.clone()));
+                        }
+                    }
+                }
+            }
+        }
+    }
+    hit.ok_or(format!("inherent fn {}::{} not found", ty, name))
+}
+
+/// the body must forward all parameters, in order, to `head::name(..)`; returns `head`
+fn forwards_to(f: &ImplItemFn, name: &str, what: &str) -> Res<String> {
+    let params = fn_params(&f.sig)?;
+    let e = single_tail_expr(&f.block).ok_or(format!("{}: body is not a single expression", what))?;
+    let (segs, cargs) = call_parts(e).ok_or(format!("{}: body is not a call", what))?;
+    if segs.len() != 2 || segs[1] != name || cargs.len() != params.len() {
+        return Err(format!("{}: body does not forward to `_::{}`", what, name));
+    }
+    for (a, (p, _)) in cargs.iter().zip(params.iter()) {
+        if matches!(a, Expr::Reference(_)) || single_ident(a).as_deref() != Some(p.as_str()) {
+            return Err(format!("{}: arguments are not forwarded in order", what));
+        }
+    }
+    Ok(segs[0].clone())
+}
+
+pub fn region_static_dispatch(files: &[File], names: &[String], reg: &mut Registry, out: &mut String) -> Res<()> {
+    let m = "get_max_payload_length";
+    let what = format!("Configuration::{}", m);
+    let wiring = region_wiring(files)?;
+    let f = find_config_method(files, m)?;
+    let params = fn_params(&f.sig)?;
+    let Expr::Macro(em) = strip_paren(single_tail_expr(&f.block).ok_or(format!("{}: body is not a single expression", what))?) else { return Err(format!("{}: body is not a macro invocation", what)) };
+    let (mname, expanded, _) = expand(files, &em.mac)?;
+    let Expr::Match(mt) = strip_paren(&expanded) else { return Err(format!("{}: {}! does not expand to a match", what, mname)) };
+    let ok_scrut = match strip_paren(&mt.expr) {
+        Expr::Reference(r) if r.mutability.is_none() => match strip_paren(&r.expr) {
+            Expr::Field(fe) => single_ident(&fe.base).as_deref() == Some("self") && matches!(&fe.member, Member::Named(n) if n == "state"),
+            _ => false,
+        },
+        _ => false,
+    };
+    if !ok_scrut {
+        return Err(format!("{}: {}! does not match on `&self.state`", what, mname));
+    }
+    // the default body of the trait: `let Some(Some(x)) = Self::datarates().get(P as usize) else { return LIT; }; rest`
+    let items = flat_items(files);
+    let mut dflt = None;
+    for it in &items {
+        if let Item::Trait(t) = it {
+            if t.ident == "ChannelRegion" {
+                for ti in &t.items {
+                    if let TraitItem::Fn(g) = ti {
+                        if g.sig.ident == m {
+                            dflt = g.default.as_ref().map(|b| (&g.sig, b));
+                        }
+                    }
+                }
+            }
+        }
+    }
+    let (dsig, dbody) = dflt.ok_or(format!("ChannelRegion::{} has no default body", m))?;
+    let dparams = fn_params(dsig)?;
+    if dparams.len() != params.len() {
+        return Err(format!("{}: parameter count differs from ChannelRegion::{}", what, m));
+    }
+    let dwhat = format!("ChannelRegion::{} (default body)", m);
+    let Some(Stmt::Local(l)) = dbody.stmts.first() else { return Err(format!("{}: does not start with a let-else", dwhat)) };
+    let init = l.init.as_ref().ok_or(format!("{}: let without initialiser", dwhat))?;
+    let (_, els) = init.diverge.as_ref().ok_or(format!("{}: first let has no else", dwhat))?;
+    // pattern `Some(Some(x))`
+    let bound = (|| -> Option<String> {
+        let Pat::TupleStruct(a) = &l.pat else { return None };
+        if !a.path.is_ident("Some") || a.elems.len() != 1 {
+            return None;
+        }
+        let Pat::TupleStruct(b) = &a.elems[0] else { return None };
+        if !b.path.is_ident("Some") || b.elems.len() != 1 {
+            return None;
+        }
+        match &b.elems[0] {
+            Pat::Ident(pi) if pi.by_ref.is_none() && pi.subpat.is_none() && pi.mutability.is_none() => Some(pi.ident.to_string()),
+            _ => None,
+        }
+    })()
+    .ok_or(format!("{}: let pattern is not `Some(Some(x))`", dwhat))?;
+    if dparams.iter().any(|(n, _)| *n == bound) {
+        return Err(format!("{}: the let-else binds `{}`, which shadows a parameter (not supported)", dwhat, bound));
+    }
+    // initialiser `Self::datarates().get(P as usize)`
+    let idx_param = (|| -> Option<String> {
+        let Expr::MethodCall(g) = strip_paren(&init.expr) else { return None };
+        if g.method != "get" || g.args.len() != 1 {
+            return None;
+        }
+        let (segs, a) = call_parts(&g.receiver)?;
+        if segs != ["Self", "datarates"] || !a.is_empty() {
+            return None;
+        }
+        let Expr::Cast(c) = strip_paren(&g.args[0]) else { return None };
+        if type_name(&c.ty) != "usize" || matches!(&*c.expr, Expr::Reference(_)) {
+            return None;
+        }
+        single_ident(&c.expr)
+    })()
+    .ok_or(format!("{}: initialiser is not `Self::datarates().get(param as usize)`", dwhat))?;
+    let ik = dparams.iter().position(|(n, _)| *n == idx_param).ok_or(format!("{}: `{}` is not a parameter", dwhat, idx_param))?;
+    if type_name(&dparams[ik].1) != "DR" {
+        return Err(format!("{}: the index parameter is not a DR", dwhat));
+    }
+    // else block `{ return LIT; }`
+    let else_val = match strip_paren(els) {
+        Expr::Block(b) => match b.block.stmts.as_slice() {
+            [Stmt::Expr(Expr::Return(r), _)] => match r.expr.as_deref().map(strip_paren) {
+                Some(Expr::Lit(ExprLit { lit: Lit::Int(li), .. })) => li.base10_parse::<u64>().ok(),
+                _ => None,
+            },
+            _ => None,
+        },
+        _ => None,
+    }
+    .ok_or(format!("{}: else block is not `return literal`", dwhat))?;
+    // the rest of the body, translated for real as a function of the bound entry and the parameters
+    let mut rest_sig = without_self(dsig);
+    let bid = Ident::new(&bound, proc_macro2::Span::call_site());
+    let extra: FnArg = parse_quote!(#bid: &Datarate);
+    rest_sig.inputs.insert(0, extra);
+    let rest_block = Block { brace_token: dbody.brace_token, stmts: dbody.stmts[1..].to_vec() };
+    let rest_name = format!("ChannelRegion.{}.rest", m);
+    let (text, rsig, extra_defs) = {
+        let mut tr = new_tr(reg, None, &rest_name);
+        let r = tr.function(&rest_sig, &rest_block, &rest_name).map_err(|e| format!("{}: {}", dwhat, e))?;
+        (r.0, r.1, tr.extra_defs)
+    };
+    for d in extra_defs {
+        out.push_str(&d);
+        out.push('\n');
+    }
+    writeln!(out, "/-- the default body of `ChannelRegion::{}` after its leading `let Some(Some({})) = Self::datarates().get({} as usize) else {{ return {} }}` -/", m, bound, idx_param, else_val).unwrap();
+    out.push_str(&text);
+    out.push('\n');
+    let mut arms = vec![];
+    for w in &wiring {
+        let mut hit = None;
+        for arm in &mt.arms {
+            if arm.guard.is_some() {
+                return Err(format!("{}: guarded arm in {}!", what, mname));
+            }
+            match &arm.pat {
+                Pat::TupleStruct(ts) if ts.path.segments.len() == 2 && ts.path.segments[0].ident == "State" && ts.elems.len() == 1 => {
+                    if ts.path.segments[1].ident == w.state_variant {
+                        hit = Some(&*arm.body);
+                        break;
+                    }
+                }
+                _ => return Err(format!("{}: arm of {}! is not `State::X(..)`", what, mname)),
+            }
+        }
+        let body = hit.ok_or(format!("{}: {}! has no arm for State::{}", what, mname, w.state_variant))?;
+        let (segs, cargs) = call_parts(body).ok_or(format!("{}: arm State::{} is not a path call", what, w.state_variant))?;
+        if segs.len() < 2 || segs[segs.len() - 2] != w.plan_ty || segs[segs.len() - 1] != m {
+            return Err(format!("{}: arm State::{} does not call {}::{}", what, w.state_variant, w.plan_ty, m));
+        }
+        if cargs.len() != params.len() || cargs.iter().zip(params.iter()).any(|(a, (p, _))| matches!(a, Expr::Reference(_)) || single_ident(a).as_deref() != Some(p.as_str())) {
+            return Err(format!("{}: arm State::{} does not pass the parameters in order", what, w.state_variant));
+        }
+        // the plan type's inherent fn: of the newtype itself, or (alias) of DynamicChannelPlan<R>
+        let holder = if w.fixed { w.plan_ty.clone() } else { "DynamicChannelPlan".to_string() };
+        let (pf, tparam) = inherent_fn(files, &holder, m)?;
+        let head = forwards_to(pf, m, &format!("{}::{}", holder, m))?;
+        let reaches_region = if w.fixed { head == w.region_ty } else { Some(&head) == tparam.as_ref() };
+        if !reaches_region {
+            return Err(format!("{}: {}::{} forwards to {}, not to the region type", what, holder, m, head));
+        }
+        // the region type must not override the trait's default
+        for it in &items {
+            if let Item::Impl(im) = it {
+                let is_cr = im.trait_.as_ref().map(|(_, p, _)| last_ident(p) == "ChannelRegion").unwrap_or(false);
+                if is_cr && type_name(&im.self_ty) == w.region_ty && im.items.iter().any(|ii| matches!(ii, ImplItem::Fn(g) if g.sig.ident == m)) {
+                    return Err(format!("{}: {} overrides ChannelRegion::{} (not supported)", what, w.region_ty, m));
+                }
+            }
+        }
+        let table = datarates_table(files, names, &w.region_ty)?;
+        let mut call = format!("{} {}", rest_name, bound);
+        for (p, _) in &params {
+            write!(call, " {}", p).unwrap();
+        }
+        let idx = &params[ik].0;
+        let els = if rsig.fallible { format!("some {}", else_val) } else { else_val.to_string() };
+        arms.push(format!("(match ({})[(DR.toInt {}).toNat]? with | some (some {}) => {} | _ => {})", table, idx, bound, call, els));
+    }
+    let (ptys, rty) = {
+        let tr = new_tr(reg, None, "");
+        let mut ptys = vec![];
+        for (_, t) in &params {
+            ptys.push(tr.ty(t)?.lean());
+        }
+        let rty = match &f.sig.output {
+            ReturnType::Type(_, t) => tr.ty(t)?.lean(),
+            ReturnType::Default => return Err(format!("{}: no return type", what)),
+        };
+        (ptys, rty)
+    };
+    let mut ty = String::from("Region");
+    for t in &ptys {
+        write!(ty, " → {}", t).unwrap();
+    }
+    write!(ty, " → {}", if rsig.fallible { format!("Option ({})", rty) } else { rty }).unwrap();
+    writeln!(out, "/-- `Configuration::{}`: `{}!` expanded with its own rules, every arm followed through the plan type's\ninherent function to the region type, whose `ChannelRegion::{}` is the trait's default body over its own `datarates()` -/", m, mname, m).unwrap();
+    writeln!(out, "def Configuration.{} : {}", m, ty).unwrap();
+    for (w, a) in wiring.iter().zip(arms.iter()) {
+        let mut lhs = format!("  | .{}", w.variant);
+        for (n, _) in &params {
+            write!(lhs, ", {}", n).unwrap();
+        }
+        writeln!(out, "{} => {}", lhs, a).unwrap();
+    }
+    writeln!(out).unwrap();
+    Ok(())
+}
+
+fn without_self(sig: &Signature) -> Signature {
+    let mut s = sig.clone();
+    s.inputs = s.inputs.into_iter().filter(|a| !matches!(a, FnArg::Receiver(_))).collect();
+    s
 }
 
 // ------------------------------------------------------------------------------------------------
